@@ -114,14 +114,18 @@ def sortBy {α} (key : α → Nat) : List α → List α
   | x :: xs => insertBy key x (sortBy key xs)
 
 /-- `[v for v in graph if isinstance(v, Derivative)]` -/
-def derivNodes (g : Graph) : List (Nat × Nat) :=
-  g.nodes.filterMap (fun n => match n.node with | .deriv s t => some (s, t) | .var _ => none)
+def derivNodesL (ns : List GNode) : List (Nat × Nat) :=
+  ns.filterMap (fun n => match n.node with | .deriv s t => some (s, t) | .var _ => none)
+
+def derivNodes (g : Graph) : List (Nat × Nat) := derivNodesL g.nodes
 
 /-- the variable nodes whose `variable_type` is none of FREE, STATE, PARAMETER -/
-def derivedNodes (g : Graph) : List Nat :=
-  g.nodes.filterMap (fun n => match n.node with
+def derivedNodesL (ns : List GNode) : List Nat :=
+  ns.filterMap (fun n => match n.node with
     | .var v => if n.vtype = some .free ∨ n.vtype = some .state ∨ n.vtype = some .parameter then none else some v
     | .deriv _ _ => none)
+
+def derivedNodes (g : Graph) : List Nat := derivedNodesL g.nodes
 
 /-- `get_derivatives()`: sorted by the `order_added` of the state variable -/
 def derivatives (M : RModel) : Except GErr (List (Nat × Nat)) :=
